@@ -62,7 +62,7 @@ def run_sharded(case):
           out.append(x)  # pylint: disable=cell-var-from-loop
       status, res = dist.run_with_watchdog(body, 90)
       results = dist.drain_queue(rq) if status == 'ok' else []
-      acquired = [w.address for w in cl.pool.acquired_workers]
+      acquired = [w.address for w in cl.pool.all_workers if w.is_locked(cl.pool)]    # dead ones too
       w = what if runs == 1 else f'{what} (run {run + 1} of {runs} on the same workers)'
       check(status != 'hang', 'hang', f'{w}: sharded run still going after 90 s')
       if status == 'error':
